@@ -14,7 +14,7 @@ Lbl(x) == hist' = Append(hist, x)
 \* the record at the head makes the reader send an event (it has a row in the tables and is not mere housekeeping)
 Yields == kq # <<>> /\ Head(kq).kind \in {"delself", "moveself"} /\ WdPath(Head(kq).wd) # {}
 CanHandle == kq # <<>> /\ ~panic /\ (~parked \/ draining)
-Vis == \/ \E p \in Paths : \/ Add(p) /\ Lbl(<<"add", p>>)
+Vis == \/ \E p \in Paths : \/ Add(p, TRUE) /\ Lbl(<<"add", p>>)
                            \/ Remove(p) /\ Lbl(<<"remove", p>>)
                            \/ Unlink(p) /\ Lbl(<<"unlink", p>>)
                            \/ MoveAway(p) /\ Lbl(<<"moveaway", p>>)
